@@ -24,6 +24,6 @@ for sid in sorted(os.listdir(os.path.join(V, "seeded"))):
 txt = "\n".join(rows) + "\n\n%d of %d seeded changes are detected by the quick tier of the check of their own property.\n" % (det, n)
 p = os.path.join(V, "DESIGN.md")
 s = open(p).read()
-s = re.sub(r"<!-- MATRIX-BEGIN -->.*<!-- MATRIX-END -->", "<!-- MATRIX-BEGIN -->\n" + txt + "<!-- MATRIX-END -->", s, flags=re.S)
+s = re.sub(r"<!-- MATRIX-BEGIN -->.*<!-- MATRIX-END -->", lambda _m: "<!-- MATRIX-BEGIN -->\n" + txt + "<!-- MATRIX-END -->", s, flags=re.S)
 open(p, "w").write(s)
 print(det, "of", n)
